@@ -103,6 +103,14 @@ def generate(names_or_targets):
             want[n['prefix']] = n
     root = _gen_root()
     todo = {n: t for n, t in want.items() if not os.path.exists(os.path.join(root, n, '.done'))}
+    lockf = None
+    if todo:
+        # two checks started together (C13 and C14 share targets) must not generate into the same directory: one process at a time per tree
+        import fcntl
+        os.makedirs(root, exist_ok=True)
+        lockf = open(os.path.join(root, '.lock'), 'w')
+        fcntl.flock(lockf, fcntl.LOCK_EX)
+        todo = {n: t for n, t in want.items() if not os.path.exists(os.path.join(root, n, '.done'))}
     if todo:
         scratch, f8c, env = _build_scratch()
         try:
@@ -123,6 +131,8 @@ def generate(names_or_targets):
                     f.write('ok' if ok else 'failed rc=%s' % p.returncode)
         finally:
             shutil.rmtree(scratch, ignore_errors=True)
+    if lockf is not None:
+        lockf.close()
     res = {}
     for n, t in want.items():
         out = os.path.join(root, n)
